@@ -2,6 +2,7 @@
 (* C10 generation: key sizes (right and wrong), plaintext lengths 0..64 and boundary sizes, decrypt exhaustively over lengths 0..96 x all 256 *)
 (* recovered pad-length octets, call histories on one / two objects with random-source failure points.                                       *)
 EXTENDS CipherLife, Pools
+CONSTANT PropId      \* the property the run is made for (C10; C04 runs the same vectors for "never crashes")
 VARIABLES stage, kind, a, b
 Bits3 == {128, 192, 256}
 
@@ -56,6 +57,7 @@ Next ==
                  [] OTHER -> IF a = 128 THEN 0..7 ELSE {}
   \/ stage = 2 /\ UNCHANGED << stage, kind, a, b >>
 Vec == CASE kind = "enc" -> EncVector(a, b) [] kind = "dec" -> DecVector(a, b) [] kind = "key" -> WrongKeyVector(a) [] OTHER -> HistVector(b)
-Emit == stage = 2 => PrintT(ToJson(Vec))
+Relabel(v) == [v EXCEPT !.steps = [q \in 1..Len(v.steps) |-> [v.steps[q] EXCEPT !.prop = PropId]]]
+Emit == stage = 2 => PrintT(ToJson(Relabel(Vec)))
 Sound == TRUE
 =============================================================================
